@@ -63,6 +63,18 @@ var table = map[string]propInfo{
 		rule: "each case is one (S with generated comments, K with arbitrary flag subsets, validator / plan-modifier lists, injected fields) compiled and its run-time schema walked against M(S,K). " +
 			"Non-trivial: >= 2 different flags set below the root, or a multi-line comment. Distinct by hash of (S, K).",
 	},
+	"C11": {
+		quick:    budget{checks: 32, shards: 16, inner: 100},
+		thorough: budget{checks: 400, shards: 16, inner: 500},
+		rule: "each case: S in which messages occur at several paths, a base configuration K0 and K1 = K0 + one entry of one of the seven field-addressed options, keyed by full path or by Message.Field; both are generated, compiled into one binary (sharing the struct package) and compared: each run-time schema against its model (so the entry changed exactly the addressed occurrences), CopyTo on the same values and CopyFrom on the same objects (translated by proto field chain) must agree on every remaining attribute, an excluded field is never written. " +
+			"Non-trivial: the addressed Message.Field occurs at >= 2 paths below the selected types. Distinct by hash of (S, K0, entry).",
+	},
+	"C13": {
+		quick:    budget{checks: 32, shards: 16, inner: 200},
+		thorough: budget{checks: 300, shards: 16, inner: 1000},
+		rule: "each case: S rich in kinds that need package qualification (cast types, enums, oneof wrappers, embedded, list/map of message, custom types) generated twice: into the struct package and into a package of its own (default_package_name = import path, or a short name with import_path_overrides); both are compiled into one binary sharing the struct package; schemas, CopyTo results, CopyFrom results and diagnostics (also on corrupted objects) must be equal. " +
+			"Non-trivial: S has >= 3 qualification-sensitive kinds. Distinct by hash of the case.",
+	},
 	"C12": {
 		quick:    budget{checks: 200, shards: 16},
 		thorough: budget{checks: 4000, shards: 16},
@@ -88,6 +100,12 @@ var table = map[string]propInfo{
 		rule: "each case: (S, K restricted to the nine two-channel options); the generated file for all-YAML delivery is compared with a drawn split, the all-parameter split and every single-option split; conflicting YAML values under command-line values; sort=false over sort: true; the three failure cases (no types, unreadable config path, unparsable YAML). " +
 			"Non-trivial: >= 3 options set and the drawn split puts >= 1 on each channel. Distinct by hash of (S, K, split).",
 		assumptions: []string{"for 'sensitive fields' and 'custom duration type' the value is passed under both parameter spellings (code: sensitive / custom_duration, README: sensitive_fields / duration_custom_type); the property names options, not keys"},
+	},
+	"C17": {
+		quick:    budget{checks: 32, shards: 16, inner: 200},
+		thorough: budget{checks: 300, shards: 16, inner: 1000},
+		rule: "each case: S with custom-type fields (gogoproto.customtype and custom_types entries; singular, nullable, repeated; at root, nested, list-element and map-value positions; with and without suffixes) compiled against logging generic hooks;" + innerRule + " C17: the GenSchema / CopyFrom / CopyTo hook calls are matched against the custom fields reached (arguments: description and flags, the attribute value and a pointer to the field, the field value, attribute type and current value) and the stored results are the hooks' sentinels; finally the proto type of every custom field is changed and the generated functions must stay byte-identical. " +
+			"Non-trivial: a custom field below the root or a repeated one. Distinct by hash of (object, value).",
 	},
 	"C18": {
 		quick:    budget{checks: 150, shards: 16},
